@@ -128,6 +128,14 @@ def load_set_differs(files, model_raw_line, oracle_verdict):
     return oracle_verdict.split()[0][2:] != mbits
 
 
+def shlib_undefined_region(files):
+    """Some shared object references (non-weakly) a name nobody defines. Whether that is an error depends on whether the linker
+    considers the library part of the link (--as-needed) and on --[no-]allow-shlib-undefined handling; it is not a reference of the
+    executable, which is what the property speaks about. The oracles' `undefined` verdict is not used there."""
+    defs = {en[1] for f in files for en in f["entries"] if en[0] == "D"}
+    return any(en[0] == "U" and not en[2] and en[1] not in defs for f in files if f["kind"] == "so" for en in f["entries"])
+
+
 def fortran_common_region(files):
     """GNU ld and lld also load an archive member to replace a COMMON symbol by a real definition; the
     property does not ask for that (a common definition is not a reference), so the oracles are not consulted there."""
@@ -308,6 +316,9 @@ def run(ctx):
             rc, o, e = run_linker(lk, d, line, am, out)
             verdicts[lk] = common_alignment_verdict(files, model_raw[i], canon_impl(files, rc, e, out), out)
         oracle_checked += 1
+        if verdicts["ld"] == verdicts["lld"] == "err:undef" and not impl[i].startswith("err") and shlib_undefined_region(files):
+            ctx.count("oracle", "skipped-shlib-undefined")
+            continue
         if verdicts["ld"] == verdicts["lld"] and load_set_differs(files, model_raw[i], verdicts["ld"]):
             ctx.count("oracle", "skipped-load-set-differs")
             continue
@@ -339,6 +350,8 @@ def run(ctx):
             rc, o, e = run_linker(lk, d2, line2, am, out)
             vs[lk] = canon_impl(small, rc, e, out)
         ctx.sample({"minimised_disagreement": req, "wild": wi, "model": mo, "ld": vs["ld"], "lld": vs["lld"]})
+        if vs["ld"] == vs["lld"] == "err:undef" and not wi.startswith("err") and shlib_undefined_region(small):
+            continue
         if vs["ld"] == vs["lld"] and vs["ld"] != wi and not vs["ld"].startswith("err:other") and not fortran_common_region(small) \
                 and not load_set_differs(small, ctx.model_eval([req])[0], vs["ld"]):
             alt = req.replace(":u:", ":s:")
